@@ -229,8 +229,14 @@ def w_eml_orders(idx):
                 if c.content is None:
                     c.add_child(Node("title" if nm in ("section", "dataset") else "zzLeaf", content="x"))
                 root.add_child(c)
+            if i % 2:
+                # nodes carrying the prefixes of the EML boilerplate (bound in their own maps) below a root that is NOT eml: what the
+                # EML exporter writes must be well-formed all the same (it writes names without prefixes)
+                for k, c in enumerate(root.children):
+                    c.prefix = ["stmml", "xsi", "eml"][k % 3]
+                    c.add_namespace(c.prefix, "urn:" + c.prefix)
             t = xmlobs.tree_proj(root)
-            desc = {"exporter": "export.to_xml" if eml else "metapype_io.to_xml", "eml_order": [parent, kids]}
+            desc = {"exporter": "export.to_xml" if eml else "metapype_io.to_xml", "eml_order": [parent, kids], "boilerplate_prefixes_on_children": bool(i % 2)}
             try:
                 text = export.to_xml(root) if eml else metapype_io.to_xml(root)
             except Exception as e:  # noqa: BLE001
